@@ -9,10 +9,13 @@ structure + algebraic identity (DESIGN.md section 4, C03).
     and for the code-shaped rule (redraw until inside).  Binding B: every enumerated transition is replayed into
     the real RWMRunner.run() (scripted randn / rand, tabulated likelihood, three walkers per call); which hard-wall
     rule the code follows is established by replay and TLC's verdict on that rule is the verdict on the code.
+    Cases with K = 2 proposal modes and 2 / 3 consecutive sweeps of one run() call decide that the cluster label of a
+    walker is fixed during a call and selects the mode of every proposal (LabelFixed, ProposalUsesLabel).
 (b) KernelTpcn.tla: the tpCN proposal (inverse-gamma mixture parameters, Crank-Nicolson map, Student-t
     correction) over exact rationals and the identity exp(factor) q(u->u')/q(u'->u) = 1 for all lattice pairs;
     seeded wrong variants must be refuted.  Binding B: the real TPCNRunner._propose / _compute_acceptance_factor
-    are run at every enumerated state with numpy.random.gamma / randn stubbed and compared with the rationals.
+    are run at every enumerated state with numpy.random.gamma / randn stubbed and compared with the rationals
+    (modes with nu from 1 to 10^6: the gamma draw is made exactly once per proposal whatever nu).
     On folded coordinates the spec's image tables are summed with exact fractions and a tail bound.
 """
 import concurrent.futures as cf
@@ -129,17 +132,19 @@ def MULTI(T8, quick):
     """K = 2 proposal modes (1 and 2 cells per unit innovation, means 1/4 and 3/4), two and three consecutive sweeps of
     one run() call: walkers cross from one mode's half of the cube to the other's while their label stays."""
     if quick:
-        return [dict(M=8, d=1, alpha=alphabet({0: 1, 1: 2, 2: 1}), tabs=[T8], steptabs=[T8], bs=[1], maxdraws=1, gains=[1, 2], nsweeps=2),
-                dict(M=4, d=1, alpha=alphabet({0: 1, 1: 1}), tabs=[(0, 2, 4, 0)], steptabs=[(0, 2, 4, 0)], bs=[2], maxdraws=1, gains=[1, 2], nsweeps=3)]
+        return [dict(M=4, d=1, alpha=alphabet({0: 1, 1: 2, 2: 1}), tabs=[(0, 2, 4, 0)], steptabs=[(0, 2, 4, 0)], bs=[1], maxdraws=1, gains=[1, 2], nsweeps=2),
+                dict(M=4, d=1, alpha=alphabet({0: 1, 1: 1}), tabs=[(0, 0, 0, 0)], steptabs=[(0, 0, 0, 0)], bs=[2], maxdraws=1, gains=[1, 2], nsweeps=3)]
     return [dict(M=8, d=1, alpha=alphabet({0: 1, 1: 2, 2: 1, 5: 1}), tabs=[T8], steptabs=[T8], bs=[1, 2], maxdraws=1, gains=[1, 2], nsweeps=2),
-            dict(M=8, d=1, alpha=alphabet({0: 1, 1: 2, 2: 1}), tabs=[T8], steptabs=[T8], bs=[1], maxdraws=1, gains=[1, 2], nsweeps=3),
+            dict(M=8, d=1, alpha=alphabet({0: 1, 1: 1}), tabs=[T8], steptabs=[T8], bs=[1], maxdraws=1, gains=[1, 2], nsweeps=3),
             dict(M=4, d=2, alpha=alphabet({0: 1, 1: 1}), tabs=[(0, 2, 4, 0) * 4], steptabs=[(0, 2, 4, 0) * 4], bs=[2], maxdraws=1, gains=[2, 1], nsweeps=1)]
 
 
 def run_kernel(cases, rule, hm, invs, dump=True, steps=True, workers=6):
     if len(cases) > 4 and workers > 2:
         workers = 8  # thorough tier
-    cs = [dict(c, steptabs=c["steptabs"] if steps else []) for c in cases]
+    # sweep behaviours: all cases under the intended rule; under the code-shaped rule only the single-sweep ones (consecutive
+    # sweeps add nothing to the hard-wall question and triple the dump)
+    cs = [dict(c, steptabs=c["steptabs"] if steps and (rule == "intended" or c.get("nsweeps", 1) == 1) else []) for c in cases]
     mc = "---- MODULE KernelMC ----\nEXTENDS Kernel\nCasesDef == <<%s>>\n====\n" % ",\n  ".join(tla_case(c) for c in cs)
     cfg = KCFG.format(rule=rule, hm=hm, invs="\n".join("INVARIANT " + i for i in invs))
     return tlc.run_tlc("KernelMC", cfg, dump=dump, coverage=True, workers=workers, extra_modules={"KernelMC.tla": mc})
@@ -532,9 +537,15 @@ PD = 50  # KernelTpcn!PD : proposals are integers in units of h/PD
 def tpcn_modes(tier):
     m = [dict(d=1, nu=1, m=(4,), L=((1,),)), dict(d=1, nu=3, m=(3,), L=((2,),)),
          dict(d=2, nu=2, m=(4, 4), L=((1, 0), (1, 1))), dict(d=2, nu=4, m=(3, 5), L=((2, 0), (1, 1)))]
+    # large degrees of freedom (DOF_FALLBACK = 1e6 is what the library uses when a fit finds no heavy tail); det(S) <= 4 keeps
+    # 225 (nu det + Qf) below 2^31
+    m += [dict(d=1, nu=102, m=(4,), L=((2,),)), dict(d=1, nu=10 ** 6, m=(3,), L=((1,),)), dict(d=2, nu=400, m=(4, 4), L=((1, 0), (1, 1)))]
     if tier != "quick":
         m += [dict(d=1, nu=5, m=(5,), L=((3,),)), dict(d=2, nu=2, m=(2, 6), L=((1, 0), (2, 3))),
               dict(d=2, nu=6, m=(4, 3), L=((3, 0), (-1, 2)))]
+        m += [dict(d=1, nu=100, m=(4,), L=((1,),)), dict(d=1, nu=400, m=(5,), L=((2,),)), dict(d=1, nu=10 ** 4, m=(4,), L=((1,),)),
+              dict(d=2, nu=100, m=(3, 5), L=((2, 0), (1, 1))), dict(d=2, nu=102, m=(4, 4), L=((1, 0), (1, 1))),
+              dict(d=2, nu=10 ** 4, m=(4, 4), L=((2, 0), (1, 1))), dict(d=2, nu=10 ** 6, m=(3, 5), L=((1, 0), (1, 1)))]
     return m
 
 
@@ -546,11 +557,11 @@ def run_tpcn(modes, zs, variant, invs, kimg, M=4, dump=True, workers=6):
     return tlc.run_tlc("KernelTpcnMC", cfg, dump=dump, coverage=True, workers=workers, extra_modules={"KernelTpcnMC.tla": mc})
 
 
-def tpcn_runner(np, mcmc, modes_mod, mode, M, kinds, U):
+def tpcn_runner(np, mcmc, modes_mod, mode, M, kinds, U, nu=None):
     h = 1.0 / (2 * M)
     d = mode["d"]
     Lm = np.array(mode["L"], dtype=float)
-    ms = modes_mod.ModeStatistics(np.array([[m * h for m in mode["m"]]]), (h * h * (Lm @ Lm.T)).reshape(1, d, d), np.array([float(mode["nu"])]))
+    ms = modes_mod.ModeStatistics(np.array([[m * h for m in mode["m"]]]), (h * h * (Lm @ Lm.T)).reshape(1, d, d), np.array([float(mode["nu"] if nu is None else nu)]))
     n = len(U)
     per = [i for i in range(d) if kinds[i] == "periodic"] or None
     ref = [i for i in range(d) if kinds[i] == "reflective"] or None
@@ -658,12 +669,79 @@ def replay_tpcn(ck, np, mcmc, modes_mod, modes, M, res):
         runner, _, _ = tpcn_runner(np, mcmc, modes_mod, mode, M, ("hard",) * mode["d"], U)
         got = runner._compute_acceptance_factor(Up, None)
         for r, g in zip(rows, got):
-            want = (r[3] / 2.0) * math.log(Fraction(r[1], r[2]))
+            want = (r[3] / 2.0) * math.log1p(float(Fraction(r[1] - r[2], r[2])))
             cnt["factor_pairs"] += 1
-            if not abs(float(g) - want) <= 1e-12 * max(1.0, abs(want)):
+            # the code forms (d+nu)/2 * log(1 + delta/nu) twice: absolute rounding error of 1 + x is eps/2, amplified by (d+nu)/2
+            if not abs(float(g) - want) <= 1e-12 * max(1.0, abs(want)) + 4 * 2.3e-16 * r[3]:
                 ck.violation("tpcn:acceptance-factor", f"_compute_acceptance_factor = {float(g)!r}, specification ({r[3]}/2) log({r[1]}/{r[2]}) = {want!r}",
                              {"mode": mode, "c": st["c"], "c2": r[0], "M": M})
     return cnt
+
+
+def replay_tpcn_float(ck, np, mcmc, modes_mod, modes, M, res, nus=(2.5, 7.3), limit=200):
+    """Non-integer degrees of freedom.  KernelTpcn.tla carries integer nu; its closed forms are the same functions of nu
+    for real nu, so here the spec's integers Qf(n), Det, Map(...) (which do not depend on nu) are combined with a real
+    nu in floating point: shape = (d+nu)/2, scale = 2/(nu + Qf/Det), factor = (d+nu)/2 * log((nu Det + Qf')/(nu Det + Qf)),
+    and compared with the real _propose / _compute_acceptance_factor of a mode with that nu (first d=1 and first d=2 mode)."""
+    h = 1.0 / (2 * M)
+    pick = {}
+    for i, mo in enumerate(modes):
+        pick.setdefault(mo["d"], i + 1)
+    groups, factors = {}, []
+    for st in iter_states(res.dump_path, ("done", "factor")):
+        if st["mi"] not in pick.values():
+            continue
+        if st["pc"] == "factor":
+            factors.append(st)
+        elif not st["amb"] and len(st["zs"]) == 1 and all(kd == "hard" for kd in st["kinds"]) and len(groups.setdefault(st["mi"], [])) < limit:
+            groups[st["mi"]].append(st)
+    n_eval = 0
+    for nu in nus:
+        for mi, sts in sorted(groups.items()):
+            mode = modes[mi - 1]
+            d = mode["d"]
+            U = np.array([[c * h for c in s["c"]] for s in sts])
+            runner, _, _ = tpcn_runner(np, mcmc, modes_mod, mode, M, ("hard",) * d, U, nu=nu)
+            o_gamma, o_randn = np.random.gamma, np.random.randn
+            for k, s in enumerate(sts):
+                rec = []
+                np.random.gamma = lambda shape=None, scale=None, size=None, _r=rec, _s=s: (_r.append((float(shape), float(scale))), 4.0 / (_s["sq2"] ** 2))[1]
+                np.random.randn = lambda *sh, _s=s: np.array(_s["zs"][0], dtype=float)
+                try:
+                    got = runner._propose(k)
+                finally:
+                    np.random.gamma, np.random.randn = o_gamma, o_randn
+                n_eval += 1
+                w_shape, w_scale = (d + nu) / 2, 2.0 / (nu + s["qf"][0] / s["qf"][1])
+                want = [float(Fraction(f, PD * 2 * M)) for f in s["fol"]]
+                bad = None
+                if len(rec) != 1:
+                    bad = f"numpy.random.gamma called {len(rec)} times"
+                elif rec[0][0] != w_shape or abs(rec[0][1] - w_scale) > 1e-12 * w_scale:
+                    bad = f"gamma(shape={rec[0][0]!r}, scale={rec[0][1]!r}), closed form ({w_shape!r}, {w_scale!r})"
+                elif any(abs(float(g) - w) > 1e-12 for g, w in zip(got, want)):
+                    bad = f"proposal {got.tolist()}, specification {want}"
+                if bad:
+                    ck.violation("tpcn:propose:real-nu", f"nu = {nu}: {bad}", {"mode": dict(mode, nu=nu), "state": s, "M": M})
+        for st in factors:
+            mode = modes[st["mi"] - 1]
+            d = mode["d"]
+            rows = st["accf"]
+            U = np.array([[c * h for c in st["c"]]] * len(rows))
+            Up = np.array([[c * h for c in r[0]] for r in rows])
+            runner, _, _ = tpcn_runner(np, mcmc, modes_mod, mode, M, ("hard",) * d, U, nu=nu)
+            got = runner._compute_acceptance_factor(Up, None)
+            Lm = mode["L"]
+            S = [[sum(Lm[i][k] * Lm[j][k] for k in range(d)) for j in range(d)] for i in range(d)]
+            det = S[0][0] * S[1][1] - S[0][1] * S[1][0] if d == 2 else S[0][0]
+            for r, g in zip(rows, got):
+                q2, q1 = r[1] - mode["nu"] * det, r[2] - mode["nu"] * det       # Qf(n'), Qf(n) from the spec's G numerators
+                want = (d + nu) / 2 * math.log1p((q2 - q1) / (nu * det + q1))
+                n_eval += 1
+                if not abs(float(g) - want) <= 1e-12 * max(1.0, abs(want)):
+                    ck.violation("tpcn:acceptance-factor:real-nu", f"nu = {nu}: _compute_acceptance_factor = {float(g)!r}, closed form {want!r}",
+                                 {"mode": dict(mode, nu=nu), "c": st["c"], "c2": r[0], "M": M})
+    return n_eval
 
 
 def entry_tpcn(ck, np, mcmc, modes_mod, modes, M, res, limit):
@@ -912,7 +990,8 @@ def _main(ck, pools):
     f_none = ex.submit(_tracked, run_kernel, cases, "impl", "none", K_INV_W + ["DetailedBalance"], False, False, 2)
     f_some = ex.submit(_tracked, run_kernel, cases, "impl", "some", ["DetailedBalance"], False, False, 2)
     f_t = ex.submit(_tracked, run_tpcn, tmodes, tzs, "intended", T_INV, kimg)
-    f_tv = {v: ex.submit(_tracked, run_tpcn, tmodes, tzs, v, ["Reversible"], 0, 4, False, 2) for v in ("shape_nu_half", "no_sqrt", "sign_flipped")}
+    vmodes = [x for x in tmodes if x["nu"] <= 10 ** 4]   # the seeded variants carry a denominator 25^2: keep 32-bit
+    f_tv = {v: ex.submit(_tracked, run_tpcn, vmodes, tzs, v, ["Reversible"], 0, 4, False, 2) for v in ("shape_nu_half", "no_sqrt", "sign_flipped")}
 
     # ---- confirmations by direct simulation of the real runners (worker processes; they are NOT the oracle)
     nsim = 8000 if quick else 40000
@@ -997,7 +1076,7 @@ def _main(ck, pools):
             raise tlc.TLCFailure("the two rules disagree on a behaviour without out-of-cube draw")
     int_only = [t for k, t in ki.items() if k not in kc]     # OutReject behaviours
     imp_only = [t for k, t in kc.items() if k not in ki]     # behaviours with a redraw
-    if any(all(sp["ok"] for sp in t["sweeps"]) for t in int_only) or any(all(len(sp["zs"]) < 2 for sp in t["sweeps"]) for t in imp_only):
+    if any(t["ok"] for t in int_only if len(t["sweeps"]) == 1) or any(len(t["zs"]) < 2 for t in imp_only):
         raise tlc.TLCFailure("unexpected partition of behaviours between the two hard-wall rules")
     rng = random.Random(ck.seed * 31 + 5)
 
@@ -1045,7 +1124,7 @@ def _main(ck, pools):
                 key = "run:labels-changed" if "cluster labels changed" in culprit[1] else "replay:sweep" if nsw == 1 else "replay:multi-sweep"
                 ck.violation(key, f"{nsw} sweep(s) of one RWMRunner.run() call differ from Kernel.tla: {culprit[1]}",
                              {"transitions": chunk, "case": cases[gk[0] - 1], "joint_message": m})
-            elif len(chunk[0]["sweeps"]) == 1 and (any(kd != "hard" for kd in gk[1]) or (i // 3) % 4 == 0):
+            elif len(chunk[0]["sweeps"]) == 1 and (i // 3) % (2 if any(kd != "hard" for kd in gk[1]) else 4) == 0:
                 # the same behaviours through the public entry point (boundary arguments travel through parallel_mcmc)
                 m = rep.sweep(cases[gk[0] - 1], gk[1], gk[2], chunk[0]["pis"], gk[3], chunk, entry=True)
                 entry_n += len(chunk)
@@ -1114,6 +1193,7 @@ def _main(ck, pools):
         rv.cleanup()
     dbg(ck, "tpcn TLC done")
     cnt = replay_tpcn(ck, np, mcmc, modes_mod, tmodes, 4, r_t)
+    cnt["real_nu_evaluations"] = replay_tpcn_float(ck, np, mcmc, modes_mod, tmodes, 4, r_t)
     cnt["entry"] = entry_tpcn(ck, np, mcmc, modes_mod, tmodes, 4, r_t, 60 if quick else 600)
     npairs, nbad, worst = folded_identity(tmodes, 4, r_t, kimg)
     r_t.cleanup()
@@ -1142,6 +1222,10 @@ def _main(ck, pools):
         "no statistical test on continuous targets is used as an oracle; the direct simulations only confirm spec-derived predictions (hard-wall and folded-coordinate findings)",
         "lattice replays use dyadic M, unit step size and an exact Cholesky factor I/M, so every proposal is an exact double; accept uniforms are interior points of the spec's cells, r = 0 and r = 1 - 2^-53",
         "tpCN states whose proposal lands exactly on a wall / fold point are flagged by the spec (amb) and not replayed",
+        "multi-sweep replays (K = 2 modes, 2 and 3 consecutive sweeps of one run() call) pin _adapt_sigma to a no-op on the runner instance, so the step size stays 1 between sweeps; they go through the runner class, not parallel_mcmc",
+        "large degrees of freedom (nu up to 1e6): the acceptance-factor comparison allows the rounding of (d+nu)/2 * log(1 + delta/nu), 4 * 2.3e-16 * (d+nu) absolute",
+        "real-valued nu (2.5, 7.3) is replayed against a floating-point evaluation of KernelTpcn.tla's closed forms on the spec's integers Qf, Det, Map (TLC itself carries integer nu only)",
+        "non-finite log-likelihoods (NaN / -inf proposals must be rejections) are not part of the lattice model (pi > 0); decided at system level",
         "the folded-space image sums are evaluated outside TLC (30-digit rationals) from the integer tables T(u, img_k u') the spec enumerates, with an explicit tail bound",
         "PARTIAL scope: the continuous proposal laws themselves (Gaussian / Student-t sampling) are not model-checked",
     ]
